@@ -592,6 +592,25 @@ func (e *Env) evalCall(x *Expr) (SV, error) {
 			return SV{T: c.Ite(c.Cmp("<=", a[0].T, a[1].T), a[0].T, a[1].T)}, nil
 		}
 		return SV{T: c.Ite(c.Cmp(">=", a[0].T, a[1].T), a[0].T, a[1].T)}, nil
+	case "convto":
+		// convto(x, T): the Go conversion T(x) between a named type with an abstract sort and its representation (e.g.
+		// []byte(addr) for an sdk.AccAddress): the same uninterpreted function the engine uses for the code's own conversion
+		if len(x.Args) != 2 {
+			return SV{}, serr("convto(x, T): two arguments")
+		}
+		a, err := e.Eval(x.Args[0])
+		if err != nil {
+			return SV{}, err
+		}
+		tn := typeExprName(x.Args[1])
+		so, gt, err := v.resolveTypeOrSort(tn)
+		if err != nil || so == nil {
+			return SV{}, serr("convto: cannot resolve type %q", tn)
+		}
+		if a.T.Sort == so {
+			return SV{T: a.T, GoT: gt}, nil
+		}
+		return SV{T: c.UF("conv_"+sanitize(a.T.Sort.Name)+"_to_"+sanitize(so.Name), so, a.T), GoT: gt}, nil
 	case "bytes2str", "str2bytes":
 		// the Go conversions string(b) / []byte(s): the same uninterpreted functions the engine uses for the code's conversions
 		a, err := e.evalArgs(x.Args)
